@@ -1894,6 +1894,8 @@ Box<ITV>::drop_some_non_integer_points(Complexity_Class) {
   for (dimension_type k = seq.size(); k-- > 0; ) {
     seq[k].drop_some_non_integer_points();
   }
+  // Some interval may have become empty.
+  reset_empty_up_to_date();
 
   PPL_ASSERT(OK());
 }
@@ -1921,6 +1923,8 @@ Box<ITV>::drop_some_non_integer_points(const Variables_Set& vars,
          v_end = vars.end(); v_i != v_end; ++v_i) {
     seq[*v_i].drop_some_non_integer_points();
   }
+  // Some interval may have become empty.
+  reset_empty_up_to_date();
 
   PPL_ASSERT(OK());
 }
